@@ -10,6 +10,8 @@ pub mod c04;
 pub mod c10;
 pub mod c11;
 pub mod c13;
+pub mod c15;
+pub mod c17;
 pub mod c19;
 pub mod c20;
 pub mod css_common;
@@ -23,6 +25,8 @@ pub fn get(id: &str) -> Option<Box<dyn Prop>> {
         "C10" => Some(Box::new(c10::C10)),
         "C11" => Some(Box::new(c11::C11)),
         "C13" => Some(Box::new(c13::C13)),
+        "C15" => Some(Box::new(c15::C15)),
+        "C17" => Some(Box::new(c17::C17)),
         "C19" => Some(Box::new(c19::C19)),
         "C20" => Some(Box::new(c20::C20)),
         _ => None,
